@@ -81,6 +81,7 @@ def pattern(name: str, A: int, B: int):
 
 
 PATTERN_ORDER = ["eq", "sh1", "and0", "neq", "lose", "win", "sh2", "heq"]
+CANON_ORDER = ["win", "lose", "eq", "neq", "and0", "or1", "sh1", "sh2", "heq", "half"]
 
 
 def pattern_alphabet(A, B, size, order=PATTERN_ORDER):
@@ -168,6 +169,15 @@ def formula_patterns(X, Y, formula, pats, k):
     return ",".join(pats[(f(x, y) + k) % len(pats)] for x in range(X) for y in range(Y))
 
 
+def canonical_names(A, B, names: str) -> str:
+    """Replace every pattern name by the first name (in CANON_ORDER) that denotes the same A x B matrix."""
+    out = []
+    for nm in names.split(","):
+        m = pattern(nm, A, B)
+        out.append(next(c for c in CANON_ORDER if pattern(c, A, B) == m))
+    return ",".join(out)
+
+
 def digest_game(game):
     from mc.own import digest
 
@@ -198,7 +208,7 @@ def classical_cases(tier, seed):
         n = cells(shape)
         dists = dist_keys(X, Y)
         if n <= full_bits:
-            for d in dists:
+            for d in (dists if n <= 12 else ("uniform", "skew", "g0")):
                 for bits in range(2 ** n):
                     yield {"shape": shape, "pred": f"bits:{bits}", "prob": d, "dtype": "f"}
             if n <= 8:  # the same 0/1 tensors stored as an integer array
@@ -220,7 +230,7 @@ def classical_cases(tier, seed):
                     yield {"shape": shape, "pred": "pat:" + ",".join(combo), "prob": d, "dtype": "f"}
             if tier == "thorough" and q == 9:
                 pats3 = pattern_alphabet(A, B, 3)
-                for d in ("uniform", "zero"):
+                for d in ("uniform",):
                     for combo in itertools.product(pats3, repeat=q):
                         if all(c in pats for c in combo):
                             continue
@@ -361,7 +371,8 @@ def product_check(case):
         return viol(f"pred_mat of the repeated game is not prod_k V(a_k,b_k|x_k,y_k) (first bad index {bad}, shape {gv.shape} "
                     f"vs {ev.shape})", site="NonlocalGame:product_pred", nontrivial=nontriv)
     # classical value of the product game against the exact reference on the reference product game
-    if min((A ** reps) ** (X ** reps), (B ** reps) ** (Y ** reps)) <= 600 and max((A ** reps) ** (X ** reps), (B ** reps) ** (Y ** reps)) <= 70000:
+    # cost bound: every (answers ** questions) pairing, so that no enumeration order can exceed it
+    if max(A ** reps, B ** reps) ** max(X ** reps, Y ** reps) <= 5000:
         ref = rg.classical_best_response(prob_r, pred_r, "bob" if (B ** reps) ** (Y ** reps) <= (A ** reps) ** (X ** reps) else "alice")
         val, exc = call(game.classical_value)
         if exc is not None:
@@ -407,7 +418,7 @@ def _tables3():
         fs.append(tab(lambda x, y, z: ((x & y) ^ z) == c))
         fs.append(tab(lambda x, y, z: (x + y + z == 1) == bool(c)))
         fs.append(tab(lambda x, y, z: (x if z else y) == c))
-        fs.append(tab(lambda x, y, z: (x <= y) == bool(c) if True else 0))
+        fs.append(tab(lambda x, y, z: (x <= y) == bool(c)))
     out = []
     for t in fs:
         if t not in out and 0 < t < 255:
@@ -512,6 +523,7 @@ def order_games():
             fam.append(formula_patterns(X, Y, "xy", p4, k))
         seen = []
         for f in fam:
+            f = canonical_names(A, B, f)
             if f not in seen:
                 seen.append(f)
                 out.append({"shape": shape, "pats": f})
@@ -559,7 +571,7 @@ def order_cases(tier, seed):
             yield c
     # core: full product of the 4-pattern alphabet on (2,2,2,2)
     for combo in itertools.product(CORE_PATS, repeat=4):
-        for d in (("uniform",) if tier == "quick" else ("uniform", "skew")):
+        for d in ("uniform", "skew"):
             c = _order_case({"shape": [2, 2, 2, 2], "pats": ",".join(combo)}, dist=d, origin="core")
             if tier == "quick":
                 prob, pred = _case_classical(c)
@@ -717,11 +729,8 @@ def history_check(case):
     from mc.history import explore
     from mc.own import digest, entropy_tape
 
-    holder = {}
-
     def make():
         game, args = _make_history_game(case)
-        holder[id(game)] = (args, digest(*args))
         game._verif_args = (args, digest(*args))
         return game
 
